@@ -76,7 +76,7 @@ def run(ctx):
         g = groups[k]
         reps.append(g[ctx.rng.randrange(len(g))])
     total_points = len(reps)
-    if ctx.tier == "quick":
+    if True:
         # stratified sample: every (kind, site class, fault) at least once, then fill up
         by = {}
         for b in reps:
@@ -86,17 +86,17 @@ def run(ctx):
             chosen.append(by[k][ctx.rng.randrange(len(by[k]))])
         rest = [b for b in reps if b not in chosen]
         ctx.rng.shuffle(rest)
-        chosen += rest[:max(0, 200 - len(chosen))]
+        chosen += rest[:max(0, ctx.q(200, 520) - len(chosen))]
         reps = chosen
-    maxpos = ctx.q(24, 160)
+    maxpos = ctx.q(24, 64)
     cases = [to_case(b, i, ctx.seed, maxpos) for i, b in enumerate(reps)]
     ctx.cov["fault_plan_points_total"] = len(plan)
     ctx.cov["fault_plan_points_modulo_chunk_order"] = total_points
     ctx.cov["fault_plan_points_executed"] = len(cases)
     ctx.cov["exhaustive"] = False
     ctx.cov["rule"] = ("fault plan = every behaviour Build;CorruptFile;ReadAll of StorageFaults.tla (printed by an exhaustive TLC run); one insertion order per "
-                       "(kind, history, #chunks, site, fault) is executed (quick: a stratified sample covering every (kind, site class, fault) at least once; "
-                       "thorough: all of them, at most 160 positions of long sites); inside a site every byte (quick: at most 24 positions of long sites - first/last 4 bytes + sampled) x "
+                       "(kind, history, #chunks, site, fault) is executed a stratified sample covering every (kind, site class, fault) at least once (quick: 200 points of the 2-chunk plan, "
+                       "thorough: 520 points of the 3-chunk plan); inside a site every byte (long sites: at most 24 (quick) / 64 (thorough) positions - first/last 4 bytes + sampled) x "
                        "every bit (bitflip) / 8 values (byteset) / every cut point (truncate) / 8 tails (extend); after every single mutation everything is read back. "
                        "evaluations = guarded reader calls; non-trivial = a plan point of which at least one mutation was read back; distinct by plan point")
     ctx.assumptions += ["reads run in a worker process whose address space is limited to its idle size + 768 MiB, so that runaway allocations kill the worker "
